@@ -157,6 +157,18 @@ func c02CertDevs() []certDev {
 		{"no-sgx-extension", false, func(p *world.PKI, pos int) []*x509.Certificate {
 			return reissue(p, pos, func(s *world.CertSpec, _ **x509.Certificate, _ **world.Key) { s.NoSGXExt = true })
 		}},
+		// outside its validity period at the verification time: a validity error must not stand in for the
+		// (missing) link to the trusted roots, so the trust condition is judged as usual
+		{"not-yet-valid", true, func(p *world.PKI, pos int) []*x509.Certificate {
+			return reissue(p, pos, func(s *world.CertSpec, _ **x509.Certificate, _ **world.Key) {
+				s.NotBefore, s.NotAfter = world.T0.AddDate(0, 0, 1), world.T0.AddDate(10, 0, 0)
+			})
+		}},
+		{"expired", true, func(p *world.PKI, pos int) []*x509.Certificate {
+			return reissue(p, pos, func(s *world.CertSpec, _ **x509.Certificate, _ **world.Key) {
+				s.NotBefore, s.NotAfter = world.T0.AddDate(-10, 0, 0), world.T0.AddDate(0, 0, -1)
+			})
+		}},
 	}
 }
 
